@@ -22,7 +22,9 @@ func c03Operands(reduced bool) []*xnode {
 		// quoted string literals are not constants: {{...}} is interpolated
 		{kind: xLit, src: `"^{{s}}"`, val: "^a"}, {kind: xLit, src: `"{{s}}b"`, val: "ab"},
 		// composite operands: call result, list element, map field, negative index
-		{kind: xLit, src: "two()", val: float64(2)}, {kind: xLit, src: "l[0]", val: float64(1)}, {kind: xLit, src: "m.k", val: "a"}, {kind: xLit, src: "l[-1]", val: "a"}}
+		{kind: xLit, src: "two()", val: float64(2)}, {kind: xLit, src: "l[0]", val: float64(1)}, {kind: xLit, src: "m.k", val: "a"}, {kind: xLit, src: "l[-1]", val: "a"},
+		// list literals (a list built by a literal may be represented differently from one built by add/concat), the empty list
+		{kind: xLit, src: "[]", val: []interface{}{}}, {kind: xLit, src: `[1, "a"]`, val: l}, vr("e", []interface{}{}), {kind: xLit, src: "[null]", val: []interface{}{nil}}}
 	if reduced {
 		return []*xnode{all[0], all[1], all[2], all[4], all[7], all[9], all[12]}
 	}
@@ -36,6 +38,7 @@ func c03Setup(vs parser.Scope, erp *interpreter.ECALRuntimeProvider) {
 	vs.SetValue("s", "a")
 	vs.SetValue("l", []interface{}{float64(1), "a"})
 	vs.SetValue("m", map[interface{}]interface{}{"k": "a"})
+	vs.SetValue("e", []interface{}{})
 	vs.SetValue("two", &hfunc{func(args []interface{}) (interface{}, error) { return float64(2), nil }})
 }
 
